@@ -89,12 +89,13 @@ def resolve_this_call(prog, dyn_cls, func, member_expr):
 class Exec:
     """One executed statement of a creator: site + parsed statement + the
     function (final overrider) that issued it."""
-    __slots__ = ('site', 'stmt', 'func')
+    __slots__ = ('site', 'stmt', 'func', 'frames')
 
-    def __init__(self, site, stmt, func):
+    def __init__(self, site, stmt, func, frames=()):
         self.site = site
         self.stmt = stmt
         self.func = func
+        self.frames = frames      # ((calling function, call node), ...) outermost first
 
 
 _ALLOWED_STMT = {'CompoundStmt', 'DeclStmt', 'ExprWithCleanups', 'CXXOperatorCallExpr',
@@ -106,7 +107,7 @@ def creation_trace(prog, cls, entry='create'):
     Any control flow in a creator is outside the modelled subset."""
     out = []
 
-    def run(func, depth):
+    def run(func, depth, frames=()):
         if depth > 6:
             raise AnalysisBroken('creator call depth exceeded in ' + func.qualname)
         body = func.body
@@ -125,7 +126,7 @@ def creation_trace(prog, cls, entry='create'):
                 except sql.SqlError as e:
                     raise AnalysisBroken('cannot read SQL at %s: %s' % (locstr(s.node), e))
                 st._site = s
-                out.append(Exec(s, st, func))
+                out.append(Exec(s, st, func, frames))
                 continue
             # any site nested deeper (e.g. inside a DeclStmt)?
             nested = [s for s in site_by_node.values()
@@ -137,7 +138,7 @@ def creation_trace(prog, cls, entry='create'):
                     except sql.SqlError as e:
                         raise AnalysisBroken('cannot read SQL at %s: %s' % (locstr(s.node), e))
                     st._site = s
-                    out.append(Exec(s, st, func))
+                    out.append(Exec(s, st, func, frames))
                 continue
             if n['kind'] == 'CXXMemberCallExpr':
                 callee = strip(children(n)[0])
@@ -148,7 +149,7 @@ def creation_trace(prog, cls, entry='create'):
                         target = resolve_this_call(prog, cls, func, callee)
                         if target is None:
                             raise AnalysisBroken('cannot resolve %s called from %s' % (name, func.qualname))
-                        run(target, depth + 1)
+                        run(target, depth + 1, frames + ((func, n),))
                         continue
             # other calls (uuid generation etc.): no SQL effect unless they
             # contain sites - checked by the effect analysis; ignore here
